@@ -17,12 +17,16 @@ for check in manifest["checks"]:
     try:
         gen = importlib.import_module(f"harness.props.{prop.lower()}_gen")
     except ModuleNotFoundError:
-        gen = None
-    if gen is not None:
-        try:
-            print(f"[setup] {prop}: regenerated {gen.regenerate()}")
-        except Exception as exc:  # the check itself reports this as a broken tie
-            print(f"[setup] {prop}: translator failed: {type(exc).__name__}: {exc}")
+        continue
+    try:
+        print(f"[setup] {prop}: regenerated {gen.regenerate()}")
+    except Exception as exc:  # the check itself reports this as a broken tie
+        print(f"[setup] {prop}: translator failed: {type(exc).__name__}: {exc}")
+# one parallel build of everything (the per-property builds below then only confirm that each property's own closure is complete)
+ok, out = core.make_all(jobs=16, keep_going=True)
+print(f"[setup] all theories in one make -j16 -k: {'ok' if ok else 'some targets failed'}")
+for check in manifest["checks"]:
+    prop = check["property_id"]
     ok, out = core.make_all(prop=prop, dirs=core.dirs_of(prop))
     print(f"[setup] {prop}: {'ok' if ok else 'FAILED'}")
     if not ok:
